@@ -203,6 +203,94 @@ def _true_only_with_input(t):
     return True
 
 
+def _false_only_at_eof(t):
+    """Every `return false` of the predicate helper is reached only after a read returned EOF."""
+    g = Guards(t)
+    for m in t.walk():
+        if m.get("k") == "ReturnStmt" and m.get("c") and folded(m["c"][0]) == 0:
+            if not any(rel == "==" and -1 in (folded(l), folded(rr)) for l, rel, rr in (g.cmps(m) or [])):
+                return False
+    return True
+
+
+def _stops_without_eof(prog, fn, g):
+    cfg = fn.cfg
+    # the loop whose condition compares the status variable with Z_STREAM_END
+    loopcond = None
+    status_d = None
+    for bid in cfg.reachable():
+        b = cfg.blocks[bid]
+        if b.get("termk") in ("WhileStmt", "DoStmt") and b.get("cond") is not None:
+            c = strip_all(fn.nodes.get(b["cond"]))
+            if c is not None and c.get("k") == "BinaryOperator" and c.get("op") == "!=" and 1 in (folded(c["c"][0]), folded(c["c"][1])):
+                loopcond = bid
+                sv = [x for x in (strip_all(c["c"][0]), strip_all(c["c"][1])) if x is not None and x.get("k") == "DeclRefExpr"]
+                status_d = sv[0]["d"] if sv else None
+    if loopcond is None or status_d is None:
+        return None
+
+    def edge_has(edge, pred):
+        for k in g.edge_facts.get(edge, ()):
+            if k[0] == "NAND":
+                # not(a and b) on a path where a = "member ended" holds gives not b
+                for x, y in ((k[1], k[2]), (k[2], k[1])):
+                    fx = g.rep.get(x)
+                    if fx is not None and member_ended(fx):
+                        ny = flow.negate_key(y)
+                        fy = g.rep.get(ny) if ny is not None else None
+                        if fy is not None and pred(fy):
+                            return True
+                continue
+            f = g.rep.get(k)
+            if f is not None and pred(f):
+                return True
+        return False
+
+    def member_ended(f):
+        return f[0] == "C" and f[2] == "==" and 1 in (folded(f[1]), folded(f[3])) and \
+            not any(x.get("k") == "MemberExpr" for x in walk(f[1]))
+
+    def eof_seen(f):
+        if f[0] == "C" and f[2] == "==" and -1 in (folded(f[1]), folded(f[3])):
+            return True
+        if f[0] == "T":
+            a = strip_all(f[1])
+            if a is not None and a.get("k") == "CallExpr":
+                q = notpl(a.get("q") or "")
+                if q == "feof" and f[2] is True:
+                    return True
+                ts = prog.call_targets(fn, a)
+                if f[2] is False and ts and all(_false_only_at_eof(t) for t in ts):
+                    return True
+        return False
+    starts = [(p, s_) for (p, s_) in g.edge_facts if p != loopcond and edge_has((p, s_), member_ended)]
+    for (p0, s0) in starts:
+        seen, todo = {s0}, [s0]
+        while todo:
+            b = todo.pop()
+            if b == loopcond:
+                n0 = fn.nodes.get(cfg.blocks[p0].get("cond"))
+                return fn.loc(n0) if n0 is not None else "?"
+            # a block that assigns the status variable ends this path: set back to Z_OK the loop goes on,
+            # set from inflate() the stream state is a new one
+            if any(e.get("k") == "BinaryOperator" and e.get("op") == "=" and
+                   (strip_all(e["c"][0]) or {}).get("d") == status_d for e in flow.element_nodes(fn, b)):
+                continue
+            for nx in cfg.succ[b]:
+                if nx < 0 or nx in seen or nx not in cfg.blocks:
+                    continue
+                if edge_has((b, nx), eof_seen):
+                    continue
+                # the status variable still says "member ended" (assignments end the path): edges that
+                # require the opposite are infeasible here
+                if edge_has((b, nx), lambda f: f[0] == "C" and f[2] == "!=" and 1 in (folded(f[1]), folded(f[3])) and
+                            status_d in (strip_all(f[1]).get("d"), strip_all(f[3]).get("d"))):
+                    continue
+                seen.add(nx)
+                todo.append(nx)
+    return None
+
+
 def rule_all_members(prog, fixture=False):
     r = RuleResult("R-C10-4", "at the end of a gzip member the decompressor stops only if no input remains; "
                    "otherwise it resets the inflater and continues", floor=0 if fixture else 1)
@@ -275,6 +363,16 @@ def rule_all_members(prog, fixture=False):
                 ok = True
             else:
                 why.append("input-remains=%s member-ended=%s loop-continues=%s" % (more, at_end, cont))
+        # (d) the loop may stop at a member end only after end of input was *seen* (a read returned EOF):
+        #     from the member-ended edge, without passing an EOF-evidence edge or the reset, the loop test
+        #     must not be reachable
+        if ok:
+            stop = _stops_without_eof(prog, fn, g)
+            if stop:
+                ok = False
+                why.append("at %s the loop can end after a member without any read having returned EOF "
+                           "(`avail_in == 0` only says the current input buffer is used up): a following member "
+                           "that starts exactly at a buffer boundary is dropped" % stop)
         r.add(key, fn.loc(sites[0][1]) if sites[0][0] is fn else "%s:%d" % (fn.relfile(), fn.line), ok,
               "reset and continue while input remains" if ok else
               "inflateReset is not performed exactly when a member has ended and input remains (%s)" % "; ".join(why))
